@@ -39,7 +39,7 @@ m = {
     },
     'engines': ENGINES,
     'checks': checks,
-    'notes': 'Technique family: property-based testing and fuzzing. Generated (program, configuration, schedule) triples are executed against the real library under a token scheduler driven through guarded hook points; oracles are reference models / history invariants; failures shrink to a replay file. add_only is false because four bodiless spin loops (`while (cond);`) had their line rewritten to carry a MYTH_VERIF_SPIN hook (see DESIGN.md 2.2).',
+    'notes': 'Technique family: property-based testing and fuzzing. Generated (program, configuration, schedule) triples are executed against the real library under a token scheduler driven through guarded hook points; oracles are reference models / history invariants; failures shrink to a replay file. Every library scenario additionally varies, from configuration bytes of the case, the default stack size, the memory under synchronisation objects before their init call, thread creation flavours, pending / disabled cancellation in created threads, a prelude of unrelated library use, and long in-place polling windows; and enforces owner discipline of run queues and per-worker free lists and the documented zero return of successful calls (DESIGN.md 2.6). add_only is false because four bodiless spin loops (`while (cond);`) had their line rewritten to carry a MYTH_VERIF_SPIN hook (see DESIGN.md 2.2).',
     'not_applicable': na,
 }
 json.dump(m, open(os.path.join(VERIF, 'MANIFEST.json'), 'w'), indent=1)
